@@ -41,7 +41,11 @@ StructSteps ==
       s \in {"alone","before-int","before-ptrstr","before-iface","after-int","after-ptrstr","after-iface",
               "mid-int","mid-ptrstr"} }       \* mid: a sibling before AND after (the member is neither first nor last)
 EmbedSteps == {"embedV","embedP","embedV-shadowed","embedP-shadowed"}
-AllSteps == Simple \cup StructSteps \cup EmbedSteps
+(* named-member steps: the type so far becomes the member of a struct whose JSON member NAME needs care: characters that HTML *)
+(* escaping respells (<, >, &), a multi-byte letter.  The program copies for escaped / unescaped keys and for values reached  *)
+(* through interface{} carry the member names pre-rendered, so the name's spelling is part of the type, not of the value.     *)
+NameSteps == {"struct-named:lt","struct-named:gt","struct-named:amp","struct-named:mixed","struct-named:u2"}
+AllSteps == Simple \cup StructSteps \cup EmbedSteps \cup NameSteps
 
 IsStructStep(s) == s \in StructSteps
 (* embedding needs a struct: only directly after a struct step *)
